@@ -32,7 +32,7 @@ import (
 
 func main() {
 	vf.Main("C17", "exploration",
-		"case = generated history of 10-60 storage API calls (objects: set/raw writer/pack/has/size/get typed/iter typed; refs: set/cas right,wrong,absent/get/remove/iter/pack; index, config, shallow, reflog append/read/delete, module storages) over a universe of 13 objects, 5 ref names, 5 indexes, 5 configs x object format {sha1, sha256}, replayed on memory storage and on 5 (quick) / 11 (thorough) filesystem storages drawn from {memfs, osfs} x ExclusiveAccess x UseInMemoryIdx x LargeObjectThreshold x small object cache x IndexCache {default, never-caching} ; shape = format + sequence of (op kind, model state of its target); non-trivial = history contains a failing call or a call on something written earlier; oracle = refmodel.Repo",
+		"case = generated history of 10-60 storage API calls (objects: set/raw writer/pack/has/size/get typed/iter typed; refs: set/cas right,wrong,absent/get/remove/iter/pack; index, config, shallow, reflog append/read/delete, module storages; 30% of the index/config/shallow/reflog calls are aliasing probes: get or set, edit the returned / passed value in place, get again; reopen of the storage instance and rewrite of the index through a second instance) over a universe of 13 objects, 5 ref names, 5 indexes, 5 configs x object format {sha1, sha256}, replayed on memory storage and on 5 (quick) / 11 (thorough) filesystem storages drawn from {memfs, osfs} x ExclusiveAccess x UseInMemoryIdx x LargeObjectThreshold x small object cache x IndexCache {default, never-caching} ; shape = format + sequence of (op kind, model state of its target); non-trivial = history contains a failing call or a call on something written earlier; oracle = refmodel.Repo",
 		run)
 }
 
@@ -43,8 +43,22 @@ type backend struct {
 	st    storage.Storer
 	close func()
 	// filesystem only: names whose loose ref file was left empty by a failed conditional set
-	emptyRef map[string]bool
-	stopped  bool
+	emptyRef  map[string]bool
+	stopped   bool
+	coldIndex bool // filesystem: no Index/SetIndex through this instance since it was opened / since the file was rewritten externally
+	// filesystem only: open another storage instance with the same / default options on the same files
+	open func(sameOptions bool) *filesystem.Storage
+	fsst *filesystem.Storage
+}
+
+// reopen replaces the storage instance by a fresh one on the same files (cold caches).
+func (b *backend) reopen() {
+	if !b.isFS {
+		return
+	}
+	_ = b.fsst.Close()
+	b.fsst = b.open(true)
+	b.st = b.fsst
 }
 
 // noCache is an IndexCache that never caches.
@@ -99,17 +113,23 @@ func newFS(c *vf.Ctx, idx int, format string, o fsOpt) *backend {
 	if format == "sha256" {
 		of = formatcfg.SHA256
 	}
-	var oc cache.Object
-	if o.cache > 0 {
-		oc = cache.NewObjectLRU(cache.FileSize(o.cache))
-	} else {
-		oc = cache.NewObjectLRUDefault()
+	b.open = func(same bool) *filesystem.Storage {
+		var oc cache.Object
+		if same && o.cache > 0 {
+			oc = cache.NewObjectLRU(cache.FileSize(o.cache))
+		} else {
+			oc = cache.NewObjectLRUDefault()
+		}
+		opts := filesystem.Options{ObjectFormat: of}
+		if same {
+			opts = filesystem.Options{ExclusiveAccess: o.excl, UseInMemoryIdx: o.memidx, LargeObjectThreshold: o.large, ObjectFormat: of}
+			if o.noIdxCache {
+				opts.IndexCache = noCache{}
+			}
+		}
+		return filesystem.NewStorageWithOptions(b.fs, oc, opts)
 	}
-	opts := filesystem.Options{ExclusiveAccess: o.excl, UseInMemoryIdx: o.memidx, LargeObjectThreshold: o.large, ObjectFormat: of}
-	if o.noIdxCache {
-		opts.IndexCache = noCache{}
-	}
-	st := filesystem.NewStorageWithOptions(b.fs, oc, opts)
+	st := b.open(true)
 	c.Must(st.Init(), "init filesystem storage")
 	if format == "sha256" {
 		cfg, err := st.Config()
@@ -118,9 +138,9 @@ func newFS(c *vf.Ctx, idx int, format string, o fsOpt) *backend {
 		cfg.Extensions.ObjectFormat = formatcfg.SHA256
 		c.Must(st.SetConfig(cfg), "set sha256 config")
 	}
-	b.st = st
+	b.st, b.fsst = st, st
 	b.close = func() {
-		_ = st.Close()
+		_ = b.fsst.Close()
 		if dir != "" {
 			os.RemoveAll(dir)
 		}
@@ -142,6 +162,13 @@ type step struct {
 	op    refmodel.Op
 	want  refmodel.Res
 	state string
+	after *refmodel.Repo // model after the op (aliasing probes only: used to restore a backend the probe polluted)
+}
+
+// probeAPI names the storage API an aliasing probe exercises.
+var probeAPI = map[string]string{
+	"idx.getmut": "Index", "idx.setmut": "SetIndex", "cfg.getmut": "Config", "cfg.setmut": "SetConfig",
+	"sh.getmut": "Shallow", "sh.setmut": "SetShallow", "rl.getmut": "Reflog", "rl.appendmut": "AppendReflog",
 }
 
 // modelState describes the op's target in the model before the op (for keys and shapes).
@@ -231,7 +258,40 @@ type mismatch struct {
 func (k *caseT) replay(b *backend) []mismatch {
 	var out []mismatch
 	for i, s := range k.steps {
-		got := exec(b.st, k.u, s.op)
+		var got refmodel.Res
+		switch s.op.K {
+		case "reopen":
+			b.reopen()
+			got = refmodel.Res{Kind: "ok"}
+		case "idx.ext":
+			// the index is rewritten from outside this storage instance (another instance on the same files)
+			if b.isFS {
+				other := b.open(false)
+				got = exec(other, k.u, refmodel.Op{K: "idx.set", I: s.op.I})
+				_ = other.Close()
+			} else {
+				got = exec(b.st, k.u, refmodel.Op{K: "idx.set", I: s.op.I})
+			}
+		default:
+			got = exec(b.st, k.u, s.op)
+		}
+		if _, isProbe := probeAPI[s.op.K]; isProbe {
+			k.c.Count("aliasing_probes", 1)
+			if b.isFS {
+				k.c.Count("aliasing_probes_fs", 1)
+				if s.op.K == "idx.getmut" && b.coldIndex {
+					k.c.Count("index_probes_on_cold_cache", 1)
+				}
+			}
+		}
+		if b.isFS {
+			switch s.op.K {
+			case "reopen", "idx.ext":
+				b.coldIndex = true
+			case "idx.get", "idx.getmut", "idx.set", "idx.setmut":
+				b.coldIndex = false
+			}
+		}
 		k.c.Count("results_compared", 1)
 		if b.isFS {
 			k.c.Count("results_compared_fs", 1)
@@ -257,6 +317,13 @@ func (k *caseT) replay(b *backend) []mismatch {
 			note = "empty-loose-ref-left-by-failed-cas"
 		}
 		out = append(out, mismatch{b: b, i: i, got: got, note: note})
+		if _, isProbe := probeAPI[s.op.K]; isProbe && s.after != nil && got.Kind == "ok" {
+			// the caller's edit leaked into the storage: put the model's value back and go on
+			var rerr error
+			if p, _ := vf.Catch(func() { rerr = refmodel.Restore(b.st, k.u, s.after, strings.SplitN(s.op.K, ".", 2)[0]) }); p == nil && rerr == nil {
+				continue
+			}
+		}
 		if s.op.IsWrite() && note == "" {
 			b.stopped = true // the backend's state may now differ from the model
 			k.c.Count("replays_stopped_after_write_mismatch", 1)
@@ -273,6 +340,7 @@ func (k *caseT) run(nFS int) {
 	g := refmodel.GenOpts{
 		Subsystems: []string{"obj", "obj", "obj", "ref", "ref", "ref", "idx", "cfg", "sh", "rl", "mod"},
 		Pack:       true, Raw: true, PackRefs: k.feat["pack_refs"], CasAbsent: k.feat["cas_absent"], SymHEAD: true, ShallowEmpty: true, WriteBias: 50,
+		Alias: 30, Reopen: true,
 	}
 	n := 10 + k.r.Intn(51)
 	nontrivial := false
@@ -281,7 +349,11 @@ func (k *caseT) run(nFS int) {
 		op := refmodel.GenOp(k.r, k.u, m, g)
 		st := modelState(m, op)
 		want := m.Exec(k.u, op)
-		k.steps = append(k.steps, step{op: op, want: want, state: st})
+		sp := step{op: op, want: want, state: st}
+		if _, isProbe := probeAPI[op.K]; isProbe {
+			sp.after = m.Clone()
+		}
+		k.steps = append(k.steps, sp)
 		shape = append(shape, op.K+":"+st+":"+want.Kind)
 		c.Seen("op_x_state_x_kind", op.K+":"+st+":"+want.Kind)
 		if want.Kind != "ok" || st == "present" || st == "symbolic" {
@@ -335,6 +407,9 @@ func (k *caseT) run(nFS int) {
 			}
 		}
 		key := keyOf(class, s)
+		if api, isProbe := probeAPI[s.op.K]; isProbe {
+			key = "aliasing:" + api + ":" + class
+		}
 		if x.note != "" {
 			key = "filesystem:" + s.op.K + ":" + x.note
 		}
@@ -368,6 +443,8 @@ func run(c *vf.Ctx) {
 	c.Floor("results compared with the model", c.Counter("results_compared"), n*(nFS+1)*20)
 	c.Floor("filesystem option combinations x format", c.SeenCount("fs_option_combinations"), c.N(60, 120))
 	c.Floor("distinct (op, target state, result kind)", c.SeenCount("op_x_state_x_kind"), 45)
+	c.Floor("aliasing probes on filesystem backends", c.Counter("aliasing_probes_fs"), n*nFS)
+	c.Floor("Index() aliasing probes on a cold index cache (after reopen / external rewrite)", c.Counter("index_probes_on_cold_cache"), n*nFS/25)
 	c.Assume("only valid inputs: well-formed objects and packs, safe flat reference names (no nested names, symbolic refs only at HEAD - C15 covers those), configs derived from the stored config, fresh values passed in, returned values never mutated")
 	c.Assume("listings compared as sets; errors compared by kind (ok / not-found / changed / invalid / other)")
 	c.Assume("the model's conditional set on a missing reference answers not-found (the storer contract: old must match the stored value)")
